@@ -103,7 +103,9 @@ def resolve_annotation(ann, ld, cls):
     l = localns_for(ld, cls)
     if isinstance(ann, str):
         ann = typing.ForwardRef(ann, is_argument=False, is_class=True)
-    return typing._eval_type(ann, g, l)
+    r = typing._eval_type(ann, g, l)
+    # typing reads a bare `None` annotation as NoneType (typing.get_type_hints does the same substitution)
+    return type(None) if r is None else r
 
 
 def own_annotations(cls):
@@ -150,7 +152,8 @@ def field_table(ld, cls, framework):
             d = cls.__dict__.get(fname, MISSING)
             out[fname] = {"raw": raw, "has_default": d is not MISSING, "default": d, "key": None}
     for fname, rec in out.items():
-        rec["annotation"] = resolve_annotation(rec["raw"], ld, cls) if rec["raw"] is not None else None
+        # a literal `None` annotation is an annotation (NoneType), not a missing one
+        rec["annotation"] = resolve_annotation(rec["raw"], ld, cls) if fname in anns else None
     return out
 
 
